@@ -104,6 +104,18 @@ Theorem nodemaker_nodes_have_shape :
 Proof. exact cfc_shape_ok. Qed.
 Print Assumptions nodemaker_nodes_have_shape.
 
+(* ... and, when uri.py classifies caps coherently (caps_coherent_full: known caps print canonically --
+   no trailing space, no alleged prefix -- and re-parse to the same class; validated by the driver, proved
+   for uri.py's grammar in C15/C16), every node the node maker builds without error from cap strings
+   that have no trailing space and at most one alleged prefix (cap_ok) is stable: "any capability kinds" *)
+Theorem nodemaker_nodes_stable :
+  forall (classify : bytes -> capclass) (w r : option bytes),
+    caps_coherent_full classify -> ocap_ok w -> ocap_ok r ->
+    n_err (create_from_cap classify false w r) = None ->
+    stableb classify (create_from_cap classify false w r) = true.
+Proof. exact cfc_stable. Qed.
+Print Assumptions nodemaker_nodes_stable.
+
 (* in general the first child (in name order) that is an error node or not allowed decides the exception *)
 Theorem immutable_dir_first_refusal :
   forall (MD : Type) (dumps : MD -> bytes) (enc : bytes -> bytes -> bytes) (m : smap (node * MD)),
@@ -143,6 +155,14 @@ Definition ex_W : bytes := bytes_of_string "URI:SSK:w".
 Definition ex_R : bytes := bytes_of_string "URI:SSK-RO:r".
 Definition ex_cls := classify_tbl [(ex_W, KWrite false ex_W ex_R); (ex_R, KRead false ex_R);
                                    (bytes_of_string "URI:CHK:c", KImm false (bytes_of_string "URI:CHK:c"))].
+Example ex_coherent_nonvacuous : caps_coherent_full ex_cls.
+Proof.
+  intro s. unfold ex_cls, classify_tbl. cbn [assoc_bytes].
+  destruct (list_N_eqb s ex_W); [vm_compute; repeat split; reflexivity|].
+  destruct (list_N_eqb s ex_R); [vm_compute; repeat split; reflexivity|].
+  destruct (list_N_eqb s (bytes_of_string "URI:CHK:c")); [vm_compute; repeat split; reflexivity|exact I].
+Qed.
+
 Example ex_stable_nonvacuous :
   forallb (stableb ex_cls)
           [create_from_cap ex_cls false (Some ex_W) None;
